@@ -278,12 +278,26 @@ func (s Schema) MarshalJSON() ([]byte, error) {
 		Properties   json.Marshaler `json:"properties,omitempty"`
 		Dependencies map[string]any `json:"dependencies,omitempty"`
 		Items        any            `json:"items,omitempty"`
+		// An empty but non-nil Enum, AnyOf or OneOf rejects every instance, so it
+		// must not be dropped by omitempty. These fields shadow the embedded ones.
+		Enum  any `json:"enum,omitempty"`
+		AnyOf any `json:"anyOf,omitempty"`
+		OneOf any `json:"oneOf,omitempty"`
 		*schemaWithoutMethods
 	}{
 		Type:                 typ,
 		Dependencies:         dep,
 		Items:                items,
 		schemaWithoutMethods: (*schemaWithoutMethods)(&s),
+	}
+	if s.Enum != nil {
+		ms.Enum = s.Enum
+	}
+	if s.AnyOf != nil {
+		ms.AnyOf = s.AnyOf
+	}
+	if s.OneOf != nil {
+		ms.OneOf = s.OneOf
 	}
 	// Marshal properties, even if the empty map (but not nil).
 	if s.Properties != nil {
